@@ -193,6 +193,9 @@ def check_file(kind, payload, bpm, rep, data):
         else:
             if not progs or any(p != want["program"] for p in progs):
                 return where + "program changes %s, expected (channel, instrument) %s" % (progs, want["program"])
+            if len(progs) != want["passes"] or len(banks) != want["passes"]:
+                # a repeat repeats the whole content: the instrument is selected again in every pass, as the track name is written again
+                return where + "%d program changes and %d bank selects for %d passes of the track" % (len(progs), len(banks), want["passes"])
             if not banks or any(b["ch"] != want["program"][0] for b in banks):
                 return where + "bank select %s not on the first note's channel %d" % ([(b["ch"], b["p"]) for b in banks], want["program"][0])
             first_on = next(i for i, e in enumerate(evs) if e["kind"] == "chan" and e["type"] == 9)
